@@ -18,6 +18,13 @@ def parseSig : List Val → Option (Nat × Sig)
     pure (ent, { party := label, signer, sigma, msg, ok, idx, auth := auth == 1 })
   | _ => none
 
+/-- numbering shared with `harness-agg/src/lib.rs::CRASH_POINTS` -/
+def crashPointOfNat : Nat → Option CrashPoint
+  | 0 => some .certBeforeInsert | 1 => some .certAfterInsert | 2 => some .certAfterUpdate
+  | 3 => some .artBeforeCompute | 4 => some .artAfterCompute | 5 => some .artAfterInsert
+  | 6 => some .hoBefore | 7 => some .hoBeforeRemoval | 8 => some .hoAfterRemoval
+  | _ => none
+
 def parseEvent : Val → Option Event
   | .l (.s "tick" :: [ep, av, nm]) => do
     let ep ← ep.nat?
@@ -33,6 +40,13 @@ def parseEvent : Val → Option Event
     let e ← e.nat?
     pure (.expire e)
   | .l [.s "rst"] => some .restart
+  | .l (.s "ctick" :: [pt, ep, av, nm]) => do
+    let pt ← pt.nat?
+    let ep ← ep.nat?
+    let avail ← av.nats?
+    let newmsg := (nm.nat?).getD 0
+    let p ← crashPointOfNat pt
+    pure (.crash { epoch := ep, now := 1, avail, newmsg } p)
   | _ => none
 
 def parseEnts (vs : List Val) : Option (List (Nat × Nat)) :=
@@ -94,6 +108,8 @@ def outcome (E : Env) (s : St) : Event → String
   | .register key party => regClassName (regClass s key party)
   | .expire e => if (findOm e s.oms).isSome then "ok" else "none"
   | .restart => "ok"
+  | .crash tp p => (match crashTickOut E s tp p with | 0 => "ok" | 1 => "err" | _ => "panic") ++
+      (if crashFires E s tp p then "!" else "")
 
 def observe (E : Env) (s : St) (ev : Event) : St × String :=
   let s' := step E s ev
